@@ -36,3 +36,7 @@ pub fn attr_col_rel(addr: u16) -> usize {
     assert!((ATTR_BASE_REL..=ATTR_MAX_REL).contains(&addr));
     ((addr - ATTR_BASE_REL) % ATTR_COLS as u16) as usize
 }
+
+#[cfg(kani)]
+#[path = "/verif/hooks/core/utils_screen.rs"]
+mod verif_hooks;
